@@ -65,6 +65,7 @@ struct Shared {
     labels: Mutex<BTreeMap<&'static str, u64>>,
     known_hits: Mutex<BTreeMap<String, u64>>,
     sample_ids: Mutex<Vec<CaseId>>,
+    any_ids: Mutex<Vec<CaseId>>,
     stop: AtomicBool,
     harness_bug: Mutex<Option<String>>,
 }
@@ -77,6 +78,7 @@ impl Shared {
             labels: Mutex::new(BTreeMap::new()),
             known_hits: Mutex::new(BTreeMap::new()),
             sample_ids: Mutex::new(Vec::new()),
+            any_ids: Mutex::new(Vec::new()),
             stop: AtomicBool::new(false),
             harness_bug: Mutex::new(None),
         }
@@ -114,6 +116,7 @@ struct LocalStats {
     labels: BTreeMap<&'static str, u64>,
     known_hits: BTreeMap<String, u64>,
     samples: Vec<CaseId>,
+    any: Vec<CaseId>,
 }
 
 impl LocalStats {
@@ -124,12 +127,15 @@ impl LocalStats {
             labels: BTreeMap::new(),
             known_hits: BTreeMap::new(),
             samples: vec![],
+            any: vec![],
         }
     }
     fn absorb(&mut self, ctx: &Ctx, case: impl FnOnce() -> CaseId) {
         self.evaluations += 1;
         if ctx.nontrivial && self.nontrivial.insert(ctx.fingerprint()) && self.samples.len() < 4 {
             self.samples.push(case());
+        } else if self.any.is_empty() {
+            self.any.push(case());
         }
         for (k, _) in ctx.labels.iter() {
             *self.labels.entry(k).or_insert(0) += 1;
@@ -157,6 +163,12 @@ impl LocalStats {
         for c in self.samples {
             if s.len() < 64 {
                 s.push(c);
+            }
+        }
+        let mut a = sh.any_ids.lock().unwrap();
+        for c in self.any {
+            if a.len() < 4 {
+                a.push(c);
             }
         }
     }
@@ -523,7 +535,14 @@ pub fn run(prop: &dyn Property, opt: &RunOptions) -> i32 {
     // Samples: re-run a few recorded non-trivial cases with tracing on.
     let mut samples: Vec<serde_json::Value> = vec![];
     {
-        let ids = shared.sample_ids.lock().unwrap().clone();
+        let mut ids = shared.sample_ids.lock().unwrap().clone();
+        if ids.is_empty() {
+            // no non-trivial case recorded (e.g. the run stopped at a violation): show what was run
+            ids = shared.any_ids.lock().unwrap().clone();
+            for v in violations.iter() {
+                ids.push(v.case.clone());
+            }
+        }
         let n = ids.len();
         let picks: Vec<usize> = if n <= 4 { (0..n).collect() } else { vec![0, n / 3, (2 * n) / 3, n - 1] };
         for i in picks {
